@@ -1,7 +1,7 @@
 (* C11 - distinct resources never share a cache entry. Property theorems only. *)
 From Coq Require Import String.
 From Coq Require Import List NArith ZArith Bool.
-From Verif Require Import GoStr GoHeader Tables Key C11Proofs.
+From Verif Require Import GoStr GoHeader Tables Route Forward Key Cache C11Proofs C11KeyUri.
 Import ListNotations.
 
 (* The hashed string determines method, host, request-target, the key headers (names,
@@ -31,4 +31,25 @@ Example C11_example :
   let k3 := hd (mkKey [] [] [] false [] []) (keys_from_request (bytes "HEAD") (bytes "example.com") (bytes "/x") []) in
   let k4 := hd (mkKey [] [] [] false [] []) (keys_from_request (bytes "GET") (bytes "HEADexample.com") (bytes "/x") []) in
   str_eqb (preimage k1) (preimage k2) = false /\ str_eqb (preimage k3) (preimage k4) = false.
+Proof. split; vm_compute; reflexivity. Qed.
+
+(* The request-target that goes into the key is the URL the rule maps the request to WITH the client's query: for every
+   rule, every request it matches and every pair of queries, equal keyed targets mean equal queries - also when the
+   rule's destination has no $1 to carry the query (defect F45, repaired: before, /fixed/a?x=2 was served the entry
+   of /fixed/a?x=1). Together with C11_preimage_injective: requests that differ in the query have different entries. *)
+Theorem C11_query_is_part_of_the_key :
+  forall dest q1 q2, keyed_target dest q1 = keyed_target dest q2 -> q1 = q2.
+Proof. exact keyed_target_separates_queries. Qed.
+Print Assumptions C11_query_is_part_of_the_key.
+
+Theorem C11_key_uri_is_the_keyed_target :
+  forall r q dest,
+    attempt_match r (u_scheme (parse_url (q_url q))) (u_host (parse_url (q_url q))) (url_request_uri (parse_url (q_url q))) = Some dest ->
+    key_uri r q = keyed_target dest (u_query (parse_url (q_url q))).
+Proof. exact key_uri_is_keyed_target. Qed.
+Print Assumptions C11_key_uri_is_the_keyed_target.
+
+Example C11_query_example :
+  keyed_target (bytes "http://origin.test/landing") (bytes "x=1") = bytes "origin.test/landing?x=1" /\
+  keyed_target (bytes "http://origin.test/landing") (bytes "x=2") = bytes "origin.test/landing?x=2".
 Proof. split; vm_compute; reflexivity. Qed.
